@@ -1,9 +1,9 @@
 #!/bin/bash
 # tools/mutround.sh <round-dir> <ID> [extra checks...]  -- evaluates m1..m3 of one property of a round
-R=$1; ID=$2; shift 2
+R=$1; ID=$2; shift 2; TAG=${ROUND_TAG:-r2}
 for m in 1 2 3; do
   d=$R/$ID/out/m$m
   [ -f "$d/patch.diff" ] || { echo "== $ID-m$m: missing"; continue; }
-  echo "== $ID-r2-m$m"
-  /verif/tools/mutkeep.sh "$d" "$ID-r2-m$m" "$ID" "$@" 2>&1 | grep -E "^(demo|suite|check|PATCH)" | sed 's/^/   /'
+  echo "== $ID-$TAG-m$m"
+  /verif/tools/mutkeep.sh "$d" "$ID-$TAG-m$m" "$ID" "$@" 2>&1 | grep -E "^(demo|suite|check|PATCH)" | sed 's/^/   /'
 done
